@@ -719,6 +719,46 @@ def twin_cases(repo_root):
     return cases
 
 
+def exclusive_pair_cases(repo_root):
+    """Every object of every base document that belongs to a mutually exclusive group gets each partner in turn
+    (operation include + exclude; an application with two of aggregate / filter / sort / select, the added step
+    well formed on its own), and a checkpoint's single comparison dependency becomes a lone checkpoint reference that
+    also carries a (malformed) compare."""
+    cases = []
+    for name, doc in base_documents(repo_root):
+        for (path, parent, key, node) in locations(doc):
+            if not isinstance(node, dict):
+                continue
+            for (k, v) in partner_for(path, node):
+                if k in ("gate_type", "output"):
+                    continue
+                field = None
+                if isinstance(node.get("aggregate"), dict):
+                    field = node["aggregate"].get("field")
+                elif isinstance(node.get("select"), str):
+                    field = node["select"]
+                if k in ("select", "sort", "aggregate") and isinstance(field, str):
+                    v = {"select": field, "sort": [{"field": field, "order": "ASC"}], "aggregate": {"field": field, "operator": "COUNT"}}[k]
+                d = copy.deepcopy(doc)
+                get_at(d, path)[k] = copy.deepcopy(v)
+                cases.append({"doc": d, "kind": "exclusive_pair:" + k, "base": name, "path": show(path) + "+" + k, "inert": False})
+        cps = doc.get("checkpoints") if isinstance(doc.get("checkpoints"), list) else []
+        refd = [c for c in cps if isinstance(c, dict) and "id" in c]
+        for i, c in enumerate(cps):
+            deps = c.get("dependencies") if isinstance(c, dict) else None
+            if isinstance(deps, list) and len(deps) == 1 and isinstance(deps[0], dict) and "compare" in deps[0] and "gate_type" not in c:
+                other = next((o for o in refd if o is not c), None)
+                if other is None:
+                    continue
+                for stray in ({"left": {}, "right": {}}, {"left": {"value": 1}, "right": {}}, {}):
+                    d = copy.deepcopy(doc)
+                    d["checkpoints"][i]["dependencies"] = [{"checkpoint": "checkpoint:%s" % other["id"], "compare": stray}]
+                    cases.append({"doc": d, "kind": "exclusive_pair:lone_reference_with_compare", "base": name,
+                                  "path": "checkpoints[%d].dependencies[0]" % i, "inert": False})
+                break
+    return cases
+
+
 DAMAGE_KINDS = (["delete_key"] * 6 + ["replace:%d" % i for i in range(len(REPLACEMENTS))] * 2 + ["replace_root"] +
                 ["add_reserved"] * 3 + ["add_partner"] * 4 + ["truncate"] * 4 + ["break_string"] * 6 + ["break_ref"] * 4 +
                 ["rename_key"] * 2 + ["gate"] * 4 + ["add_map_entry"])
